@@ -375,7 +375,7 @@ def _e2e(p):
     syn = trees.syntax_errors(res.pkg_tree())
     from checks.c01 import _raw_name_on_line
     for f, msg in syn:
-        raw = "raw-name/" if _raw_name_on_line(res.pkg_tree()[f], msg, names, p["prefix"]) else ""
+        raw = _raw_name_on_line(res.pkg_tree()[f], msg, names, p["prefix"])
         viol.append({"oracle": "invalid-identifier", "site": role(f), "key": f"{key}/{raw}{norm_msg(msg)}", "detail": f"{f}: {msg}"})
     for k, why in _path_components_ok(res):
         viol.append({"oracle": "invalid-path-component", "site": role(k), "key": f"{key}/{why}", "detail": f"path {k!r} has a component that is not an identifier ({why})"})
